@@ -180,7 +180,7 @@ def main():
   if tier == 'thorough':       # one symbolic stall per memory port at every possible position (RTL: ~2000 paths per program)
     for p in ['adj_csrw_csrw', 'store_load', 'adj_lw', 'csrw_then_branch', 'back_loop']:
       for lv in ('FL', 'CL') + (('RTL',) if p == 'adj_csrw_csrw' else ()):
-        items.append(dict(kind='proc', name=f"{lv}/{p}/stalls", prog=p, level=lv, timing=[0, 1, 1], stalls=True))
+        items.append(dict(kind='proc', name=f"{lv}/{p}/stalls", prog=p, level=lv, timing=[0, 1, 1], stalls=True, budget_s=3000 if lv == 'RTL' else 900))
   items.sort(key=lambda it: 0 if it.get('level') == 'RTL' else 1)
   for it, r in pmap(dispatch, items, item_timeout=1500 if tier == 'quick' else 4000):
     chk.absorb(it, r)
